@@ -52,6 +52,77 @@ func c14Filler(r *core.Rand, n int) string {
 	return string(b)
 }
 
+// c14Lexical: hand-written templates that go through every lexical form the two tokenizers must agree on (string literals with
+// escapes and embedded delimiters, numbers, multi-character operators, hashes, keyword tags with their own tokenizer paths).
+// Each entry is a list of pieces; an element starting with "{{" or "{%" is one whole tag, anything else is text.
+var c14Lexical = [][]string{
+	{"a", `{{ "it\"s" }}`, "b", `{{ 'it\'s'|upper }}`, "c"},
+	{`{% set q = "a\"b" %}`, "x", `{{ q }}`, "y", `{% if q == "a\"b" %}`, "T", `{% endif %}`, "z"},
+	{"a", `{{ "a\"" ~ 'b\'' ~ "\"" }}`, "b", `{{ "\"" }}`, "c", `{{ '\'' ~ s ~ '\'' }}`, "d"},
+	{"a", `{{ 'x\\' }}`, "c", `{{ "y\\" ~ s }}`, "d"},
+	{"a", `{{ "a}}b" }}`, "b"},
+	{"a", `{{ 'c%}d' }}`, "b"},
+	{"a", `{% if 'e%}' %}`, "T", `{% endif %}`},
+	{"a", `{{ '{{ not a tag }}'|length }}`, "b"},
+	{"a", `{{ "{# nc #}" }}`, "c"},
+	{"a", `{{ '{% x %}' }}`, "d"},
+	{"a", `{{ "}" ~ '{' ~ "%" ~ '#' }}`, "d", `{{ '} }' }}`, `{{ "% }" }}`},
+	{"n", `{{ 1.5 + 2 }}`, "|", `{{ 0.25 * 4 }}`, "|", `{{ 10.0 / 4 }}`, "|", `{{ 3.14|round }}`},
+	{"n", `{{ (1..3)|join(',') }}`},
+	{"n", `{% for i in 1..3 %}`, "[", `{{ i }}`, "]", `{% endfor %}`},
+	{"n", `{{ 10 // 3 }}`},
+	{"n", `{{ 2 ** 3 }}`},
+	{"o", `{{ s ~ '-' ~ 1.25 }}`, "|", `{{ yes ? 'a' : 'b' }}`, "|", `{{ no ? "a\"" : "b\"" }}`},
+	{"o", `{{ no ?: 'elvis' }}`},
+	{"o", `{{ nope ?? 'dflt' }}`},
+	{"t", `{{ 2 not in xs ? 'N' : 'Y' }}`, "|", `{{ s is not null ? 1 : 0 }}`, "|", `{{ 'Sab' starts with s ? 1 : 0 }}`, "|", `{{ 'abS' ends with s ? 1 : 0 }}`, "|", `{{ s matches '/^S$/' ? 1 : 0 }}`},
+	{"t", `{{ s is defined and nope is not defined ? 'd' : 'u' }}`, "|", `{{ 4 is divisible by(2) ? 1 : 0 }}`, "|", `{{ s is same as(s) ? 1 : 0 }}`},
+	{"h", `{% set h = {'k': 'v', "k2": [1, 2, {'z': '}'}]} %}`, "|", `{{ h.k }}`, `{{ h.k2[2].z }}`, "|", `{{ {'a': 1}|keys|join }}`},
+	{"h", `{{ {'a': "q\"", 'b': '}'}|join('-') }}`, "|", `{{ [1, "2\"", '3\'']|join }}`, "|", `{{ {"k}": 1}|keys|first }}`},
+	{"i", `{% include 'inc' with {'w': "q\"}"} only %}`},
+	{"i", `{% include 'inc' with {'w': '%}'} %}`},
+	{"i", `{% include 'inc' with {'w': "q\""} only %}`, "|", `{% include 'inc' with {'w': 'r}'} %}`, "|", `{% include 'inc' %}`, "|", `{% include "inc" ignore missing with {'w': 1.5} %}`},
+	{"f", `{% from 'lib' import mm as z %}`, "|", `{{ z('%}') }}`},
+	{"f", `{% import 'lib' as l %}`, `{{ l.mm("}}") }}`},
+	{"f", `{% from 'lib' import mm as z %}`, "|", `{{ z("a\"b") }}`, "|", `{% import "lib" as l %}`, `{{ l.mm('}') }}`, `{{ l.mm(1.5) }}`},
+	{"m", `{% macro dm(a = "d\"q", b = '}}') %}`, "[", `{{ a }}`, `{{ b }}`, "]", `{% endmacro %}`, "|", `{{ dm() }}`, "|", `{{ dm('x') }}`},
+	{"m", `{% macro dn(a = 1.5, b = -2, c = 'x\'y') %}`, "[", `{{ a }}`, `{{ b }}`, `{{ c }}`, "]", `{% endmacro %}`, "|", `{{ dn() }}`, "|", `{{ _self.dn(3) }}`},
+	{"c", `{{1+2*3}}`, "|", `{{s~s}}`, "|", `{{ xs[0]+xs[2] }}`, "|", `{{ xs|length>2?'big':'small' }}`, "|", `{{(1+2)*3}}`},
+	{"c", `{{s|upper|lower~'x'}}`, "|", `{{xs[1]==0?'z':'n'}}`, "|", `{{ xs | length }}`, "|", `{{ 7%3 }}`, `{{ 7 %3 }}`, `{{ 7% 3 }}`},
+	{"b", `{{ 'a\\\\b' }}`, "|", `{{ "tab\there" }}`, "|", `{{ 'nl\nx'|length }}`, "|", `{{ 'é}' ~ "日本'" }}`},
+	{"l", "{{\n s \n|\n upper \n}}", "|", "{%\tif yes\n%}", "T", "{%\nendif\t%}", "|", "{{ s\r\n}}"},
+	{"s", `{% set a, b = 'x', "y\"" %}`, `{{ a }}`, `{{ b }}`},
+	{"s", `{% set cap %}`, "in", `{{ s }}`, `{% endset %}`, `{{ cap }}`},
+	{"s", `{% set a = 'x' %}`, `{% set b = "y\"" ~ a %}`, `{{ a }}`, `{{ b }}`, `{% set c = [a, b, 1.5] %}`, `{{ c|join('/') }}`},
+	{"a", `{% apply upper %}`, "abc", `{{ s }}`, `{% endapply %}`},
+	{"a", `{% apply lower|escape %}`, "<B>", `{% endapply %}`},
+	{"a", `{% apply replace({'b': "\""}) %}`, "abc", `{% endapply %}`},
+	{"e", `{% extends 'base' %}`, `{% block c %}`, "child", `{{ "q\"" }}`, `{{ parent() }}`, `{% endblock %}`},
+	{"e", `{% extends "base" %}`, `{% block c %}`, `{{ 'x\'' }}`, `{% endblock c %}`},
+	{"d", `{% do 1 + 2 %}`, "|", `{% if not (yes and no) or s == 'S' %}`, "T", `{% elseif "x\"" %}`, "U", `{% else %}`, "E", `{% endif %}`},
+	{"d", `{% if no %}`, "T", `{% elseif s == "S\"" or s == 'S' %}`, "U", `{% else %}`, "E", `{% endif %}`, `{% for k, v in {'a': "1\""} %}`, `{{ k }}`, `{{ v }}`, `{% endfor %}`},
+	{"x", `{{ s|default("d\"f")|upper }}`, "|", `{{ none|default('e}')|length }}`},
+	{"x", `{{ s|replace('S', "\"}") }}`},
+	{"x", `{{ s|replace('S', "\"") }}`, "|", `{{ 'a,b'|split(',')|join("\"") }}`, "|", `{{ "x"|format }}`, `{{ '%s"'|format(s) }}`},
+	{"v", `{{ s }}`, "|", `{{ "a\"" }}`, `{% spaceless %}`, "<a> <b>", `{{ 'c\'' }}`, `{% endspaceless %}`},
+}
+
+func c14LexicalPieces(e []string) []mt.Piece {
+	var ps []mt.Piece
+	for _, el := range e {
+		if len(el) >= 4 && (strings.HasPrefix(el, "{{") || strings.HasPrefix(el, "{%")) {
+			kind := "raw"
+			if strings.HasPrefix(el, "{{") {
+				kind = "print"
+			}
+			ps = append(ps, mt.Piece{Tag: true, Kind: kind, Open: el[:2], Inner: el[2 : len(el)-2], Close: el[len(el)-2:], NoDash: true})
+		} else {
+			ps = append(ps, mt.Piece{Kind: "text", Text: el})
+		}
+	}
+	return ps
+}
+
 func (p *c14) Run(rec *core.Recorder, seed uint64, idx int, tier string) {
 	r := core.NewRand("C14", seed, idx)
 	// ---- base template
@@ -61,7 +132,16 @@ func (p *c14) Run(rec *core.Recorder, seed uint64, idx int, tier string) {
 	var ctx map[string]interface{}
 	pr := &mt.Printer{}
 	corpus := c13Corpus()
-	if r.P(2, 5) {
+	lexical := false
+	if r.P(1, 4) {
+		lexical = true
+		k := r.Intn(len(c14Lexical))
+		rec.Count(fmt.Sprintf("lexical:%02d", k), 1)
+		ps = c14LexicalPieces(c14Lexical[k])
+		main = "main"
+		srcs = map[string]string{"inc": "I{{ w }}", "lib": "{% macro mm(x) %}<{{ x }}>{% endmacro %}", "base": "B[{% block c %}c0{% endblock %}]", "main": mt.Join(ps)}
+		ctx = ctxToGo(c13Ctx())
+	} else if r.P(2, 5) {
 		e := corpus[r.Intn(len(corpus))]
 		set := e.set()
 		srcs, main = pr.SourceSet(set), "main"
@@ -74,7 +154,7 @@ func (p *c14) Run(rec *core.Recorder, seed uint64, idx int, tier string) {
 		ps = pr.Pieces(ts.Set.T[main].Body)
 		ctx = ts.GoCtx()
 	}
-	if r.P(1, 3) {
+	if !lexical && r.P(1, 3) {
 		ps = padPieces(r, ps)
 		tags := dashable(ps)
 		if len(tags) > 30 {
@@ -245,6 +325,12 @@ func (p *c14) Run(rec *core.Recorder, seed uint64, idx int, tier string) {
 	cs := map[string]any{"short": core.Trunc(shortSrc, 1200), "long_len": len(longSrc), "short_len": len(shortSrc), "pads": len(chosen), "mode": mode, "target": target, "long_head": core.Trunc(longSrc, 600)}
 	if rl.Panicked {
 		rec.Violate("panic", "panic@"+rl.Site, "engine panicked on the long version: "+rl.PanicVal, cs, rl.Stack)
+		return
+	}
+	if rs.Err != nil && !rs.Panicked && rl.Err == nil {
+		// whether a template is accepted is part of how it is read
+		rec.Violate("pad-invariance", core.SigHash("c14-accept", longSrc),
+			fmt.Sprintf("padding changed whether the template is accepted: the short source (%d bytes) fails with %v, the long one (%d bytes) renders; short source %s", len(shortSrc), rs.Err, len(longSrc), core.Q(core.Trunc(shortSrc, 400))), cs, "")
 		return
 	}
 	if rs.Panicked || rs.Err != nil {
